@@ -7,7 +7,7 @@
    assignment is accepted, written as assigned (until a read decodes it: C10) and validates at every level; over any sequence of operations the
    stored value stays valid at level 3 and only valid texts are written at level >= 2. *)
 From Coq Require Import List String Ascii ZArith Bool.
-From GfaV Require Import Base.Py Base.Regex Base.RegexIncl Gen.Regexes Model.Codec Model.Line Model.Levels Proofs.LevelsP.
+From GfaV Require Import Base.Py Base.Regex Base.RegexIncl Gen.Regexes Model.Codec Model.Line Model.Levels Proofs.LevelsP Proofs.HardOkP.
 Import ListNotations.
 Open Scope string_scope.
 
@@ -15,34 +15,20 @@ Theorem C18_levels_above_zero_agree : forall O k version s, parse_line O (S k) v
 Proof. exact levels_above_zero_agree. Qed.
 Print Assumptions C18_levels_above_zero_agree.
 
-(* hard_ok: for GFA2 positions and GFA2 oriented identifier lists the unsafe decoder accepts what the safe one accepts
-   (not a purely regular condition); for every other datatype this is proved (safe_accepts_unsafe_accepts, by checked
-   inclusion of the regenerated grammars in the grammars of Python's int() and float()) *)
-Theorem C18_accepted_above_is_accepted_at_zero : forall O version s l, hard_ok O ->
+(* a text accepted above level 0 is accepted at level 0, where every record type with declared fields yields the same
+   line: the safe decoder of every datatype accepts only what the unsafe one accepts (checked inclusion of the
+   regenerated grammars in the grammars of Python's int() and float(); separate arguments for GFA2 positions and GFA2
+   oriented identifier lists) *)
+Theorem C18_accepted_above_is_accepted_at_zero : forall O version s l,
   parse_line O 1 version s = Ok l ->
   exists l0, parse_line O 0 version s = Ok l0 /\ (rc_name (ln_class l) <> "CustomRecord" -> l0 = l).
-Proof. exact accepted_above_is_accepted_at_zero. Qed.
+Proof. exact accepted_above_zero_unconditional. Qed.
 Print Assumptions C18_accepted_above_is_accepted_at_zero.
 
-Theorem C18_safe_decoders_accept_less : forall O md s, hard_module md = false ->
+Theorem C18_safe_decoders_accept_less : forall O md s,
   accepts_module O md s = true -> unsafe_accepts_module md s = Ok tt.
-Proof. exact safe_accepts_unsafe_accepts. Qed.
+Proof. exact safe_decoders_accept_less. Qed.
 Print Assumptions C18_safe_decoders_accept_less.
-
-(* a test, not a proof: the hypothesis hard_ok on every string of up to four characters over the characters that matter *)
-Fixpoint words (alpha : list ascii) (n : nat) : list string :=
-  match n with
-  | O => [EmptyString]
-  | S k => EmptyString :: flat_map (fun w => map (fun c => String c w) alpha) (words alpha k)
-  end.
-
-Example C18_hard_ok_on_short_strings :
-  let O := table_oracle [] [] in
-  forallb (fun md => forallb (fun s => implb (accepts_module O md s)
-                                             (match unsafe_accepts_module md s with Ok _ => true | Err _ => false end))
-                             (words (list_ascii_of_string "05$-+ A,_") 4))
-          ["position_gfa2"; "oriented_identifier_list_gfa2"] = true.
-Proof. vm_compute. reflexivity. Qed.
 
 (* the thresholds of the levels are read from the source: validation at the assignment from level 3, at the write from
    level 2, safe parsing at construction from level 1 *)
